@@ -189,6 +189,11 @@ Interpolation::Interpolation(const std::vector<double>& arg_values, const std::v
 		std::cerr << "Error in libphysica::Interpolation::Interpolation(): Unequal length of argument and function lists: " << x_values.size() << " vs " << function_values.size() << std::endl;
 		std::exit(EXIT_FAILURE);
 	}
+	if(N < 3)
+	{
+		std::cerr << "Error in libphysica::Interpolation::Interpolation(): At least three points are required (N = " << N << ")." << std::endl;
+		std::exit(EXIT_FAILURE);
+	}
 	for(unsigned int i = 1; i < N; i++)
 	{
 		if(x_values[i] <= x_values[i - 1])
